@@ -5,7 +5,9 @@
 * `dsa._serialize_scalar` (DER INTEGER writer: pad rule + CompactSize length, via the translated
   `var_bytes.serialize` -> `var_int.serialize`),
 * the DER tags, the shape of the strict-mode guards of `_deserialize_scalar`, the key_id formula of
-  `_sign_recoverable_`, and the recovery-flag arithmetic / admissible flag ranges of `bms`.
+  `_sign_recoverable_`, the recovery-flag arithmetic / admissible flag ranges of `bms`, and the source shape of the lines
+  the hand models of bms.sign / bms.assert_as_valid, challenge_, the RFC 6979 candidate rule, Signer.sign_'s dispatch and
+  verify_'s refusal classes mirror.
 """
 import ast
 import inspect
@@ -87,6 +89,27 @@ def constants():
     _need(s, "key_id = sig.rf - 27 & 3", "bms.assert_as_valid key_id")
     _need(s, "compressed = sig.rf > 30", "bms.assert_as_valid compressed")
     _need(_src(bms.Sig.assert_valid), "if self.rf < 27 or self.rf > 42:", "bms.Sig.assert_valid range")
+    # the scheme model Model/C02/BmsSig.lean (sign / assertAsValid) and the entry model Model/C02/Api.lean
+    s = _src(bms.sign)
+    _need(s, "dsa_sig, key_id = dsa.sign_recoverable(magic_msg, q)", "bms.sign signs with dsa.sign_recoverable defaults")
+    _need(s, "if addr is None or addr == p2pkh(pub_key, network, compressed):", "bms.sign p2pkh arm")
+    _need(s, "elif compressed and addr == p2wpkh_p2sh(pub_key, network):", "bms.sign p2wpkh-p2sh arm")
+    _need(s, "elif compressed and addr == p2wpkh(pub_key, network):", "bms.sign p2wpkh arm")
+    s = _src(bms.assert_as_valid)
+    _need(s, "pub_key = _libsecp256k1_recover_sec_(key_id, reduce_to_hlen(magic_msg), sig.dsa_sig, compressed, lower_s=False)",
+          "bms.assert_as_valid bindings-arm recovery (any s)")
+    _need(s, "Q = dsa.recover_pub_key(key_id, magic_msg, sig.dsa_sig, sha256)", "bms.assert_as_valid Python-arm recovery")
+    _need(s, "pub_key = bytes_from_point(Q, compressed=compressed)", "bms.assert_as_valid serialization")
+    from btclib.ecc import rfc6979_nonce
+    _need(_src(rfc6979_nonce.challenge_), "return int_from_bits(msg_hash, ec.nlen) % ec.n", "challenge_ reduction")
+    s = _src(rfc6979_nonce._rfc6979_nonce_)
+    _need(s, "while len(t) < ec.n_size:", "_rfc6979_nonce_ fill loop")
+    _need(s, "nonce = int_from_bits(t, ec.nlen)", "_rfc6979_nonce_ candidate")
+    _need(s, "if 0 < nonce < ec.n:", "_rfc6979_nonce_ candidate rule")
+    _need(_src(dsa.Signer.sign_), "if self._pub_key_sec is not None:", "Signer.sign_ reads the arm fixed at construction")
+    _need(_src(dsa.recover_pub_key_), "QJ = _recover_pub_key_(key_id, c, sig.r, sig.s, sig.ec, lower_s=False)", "recover_pub_key_ core call")
+    _need(_src(dsa.assert_as_valid_), "_assert_as_valid_(c, QJ, sig.r, sig.s, sig.ec, fixed, lower_s=False)", "assert_as_valid_ core call")
+    _need(_src(dsa.verify_), "except (ValueError, BTClibRuntimeError):", "verify_ refusal classes")
 
     def accepts(fn, rf, *extra):
         # evaluate the guard alone: the hash comparison is made to succeed
